@@ -74,12 +74,13 @@ class Frame:
     """
 
     def __init__(self, fields=None, lists=None, olists=None, alloc_objects=False, alloc_lists=False,
-                 keep_facts=None, allocates=False):
+                 keep_facts=None, allocates=False, alloc_olists=False):
         self.fields = dict(fields or {})
         self.lists = lists
         self.olists = olists
         self.alloc_objects = alloc_objects
         self.alloc_lists = alloc_lists
+        self.alloc_olists = alloc_olists  # the callee allocates observer-region lists
         self.keep_facts = keep_facts
         if allocates is True:
             self.alloc_objects = True
@@ -89,7 +90,7 @@ class Frame:
 
     @property
     def bumps_alloc(self):
-        return bool(self.alloc_objects or self.alloc_lists or self.olists is not None)
+        return bool(self.alloc_objects or self.alloc_lists or self.alloc_olists or self.olists is not None)
 
     def list_pred(self, l):
         if self.lists is None:
@@ -369,7 +370,7 @@ class Engine:
             if base in ("Callable",):
                 return CALLREF()
             if base in ("type",):
-                return ANY
+                return Ty("classval")
             if base in ("dict", "Dict"):
                 return ANY
             if base in ("tuple", "Tuple"):
@@ -421,6 +422,8 @@ class Engine:
             if st is not None:
                 st.assume(t >= 0)
             return Val(ty if ty.arg else CALLREF(f"param:{name.split('_h')[0]}"), t)
+        if k == "classval":
+            return Val(ty, fresh(name + "_cls"))
         if k == "tuple":
             return Val(ty, [self.fresh_val(t, f"{name}_{i}", st) for i, t in enumerate(ty.items)])
         if k == "set":
@@ -489,6 +492,12 @@ class Engine:
         nullable = self.nullable_params(fi)
         for name, ty in ptypes.items():
             args[name] = self.fresh_val(ty, name, st, nonnull=name not in nullable)
+        # arguments have (a subclass of) their annotated class; `self` by method dispatch
+        for name, v in args.items():
+            if isinstance(v, Val) and v.ty.kind == "ref" and v.ty.arg in self.prog.classes:
+                subs = [c for c in self.prog.classes if self.prog.is_subclass(c, v.ty.arg)]
+                tag = h0.get("$type", v.t)
+                st.assume(z3.Or(v.t == 0, *[tag == self.class_id(c) for c in subs]))
         if hasattr(contract, "setup"):
             contract.setup(self, st, args)
         self.h0 = h0
@@ -617,7 +626,7 @@ class Engine:
         for region in ("c", "o"):
             spec = frame.lists if region == "c" else frame.olists
             changed = spec is not None and (callable(spec) or isinstance(spec, str) or len(spec) > 0)
-            allocs = frame.alloc_lists if region == "c" else False
+            allocs = frame.alloc_lists if region == "c" else frame.alloc_olists
             if not (changed or allocs):
                 continue
             Len0, El0, ElX0 = h.arrs(region)
@@ -824,7 +833,7 @@ class Engine:
                 continue
             ann = self.ty_from_ann(s.annotation)
             if v.ty.kind == "list" and v.ty.arg.kind == "any" and ann.kind == "list":
-                v = Val(ann, v.t)
+                v = Val(LIST(ann.arg, v.ty.region), v.t)
             out.extend(self.assign(s.target, v, s2))
         return out
 
@@ -1294,7 +1303,18 @@ class Engine:
             return [(st, Val(FUNC, ("bound", meth, obj)))]
         ca = self.prog.find_class_attr(cls, attr)
         if ca is not None and not self.has_field(cls, attr):
-            return self.ev(ca, st)
+            subs = [c for c in self.prog.classes if self.prog.is_subclass(c, cls)]
+            overriding = [c for c in subs if c != cls and attr in self.prog.classes[c].class_attrs]
+            if not overriding:
+                return self.ev(ca, st)
+            # a subclass overrides the class attribute: the value depends on the dynamic class
+            tag = st.heap.get("$type", obj.t)
+            res = None
+            for c in subs:
+                node = self.prog.find_class_attr(c, attr)
+                val = self.ev(node, st)[0][1]
+                res = val if res is None else self.ite_val(tag == self.class_id(c), val, res)
+            return [(st, res)]
         ty = self.field_ty(cls, attr)
         if ty.kind == "func":
             return [(st, Val(FUNC, ("field", attr, obj)))]
@@ -1304,7 +1324,10 @@ class Engine:
         if okst is not None:
             v = from_int(ty, okst.heap.get(attr, obj.t))
             if v.ty.kind in ("ref", "list", "any", "deque") and okst.pure is None:
-                okst.assume(z3.And(v.t >= 0, v.t < okst.heap.alloc))
+                # references stored in the heap exist: below the allocation counter; a field array
+                # never written on this path still holds entry-state references (< alloc at entry)
+                untouched = self.h0 is not None and okst.heap.farr(attr).eq(self.h0.farr(attr))
+                okst.assume(z3.And(v.t >= 0, v.t < (self.h0.alloc if untouched else okst.heap.alloc)))
             out.append((okst, v))
         return out
 
@@ -1342,7 +1365,9 @@ class Engine:
             elem = base.ty.arg
             v = from_int(elem, okst.heap.at(base, j), okst.heap.atx(base, j) if elem.kind == "xint" else None)
             if v.ty.kind in ("ref", "list", "any", "deque") and okst.pure is None:
-                okst.assume(z3.And(v.t >= 0, v.t < okst.heap.alloc))
+                region = base.ty.region or "c"
+                untouched = self.h0 is not None and okst.heap.arrs(region)[1].eq(self.h0.arrs(region)[1])
+                okst.assume(z3.And(v.t >= 0, v.t < (self.h0.alloc if untouched else okst.heap.alloc)))
             out.append((okst, v))
         return out
 
@@ -1735,7 +1760,10 @@ class Engine:
 
     # ------------------------------------------------------------ dynamic types
     def class_id(self, cls):
-        ids = self.__dict__.setdefault("_class_ids", {})
+        ids = self.__dict__.get("_class_ids")
+        if ids is None:
+            ids = {c: i + 1 for i, c in enumerate(sorted(self.prog.classes))}
+            self.__dict__["_class_ids"] = ids
         if cls not in ids:
             ids[cls] = len(ids) + 1
         return ids[cls]
@@ -1808,6 +1836,11 @@ class Engine:
             return call_list_method(self, fv, e, st)
         if fv.ty.kind == "class":
             return self.construct(fv.t, e, st)
+        if fv.ty.kind == "classval":
+            con = self.reg.get("classval:__call__")
+            if con is None:
+                raise OutsideSubset("call of a class-valued variable without the abstract constructor contract")
+            return self.call_abstract(con, [fv], e, st)
         if fv.ty.kind == "callref":
             con = self.reg.get(fv.ty.arg)
             if con is None:
@@ -1990,9 +2023,8 @@ class Engine:
                 continue
             r = self.alloc_ref(s)
             obj = vref(cls, r)
-            tagged = getattr(con, "type_tag", None)
-            if tagged:
-                s.heap = s.heap.put("$type", r, z3.IntVal(tagged(cls)))
+            # ghost: the dynamic class of the new object
+            s.heap = s.heap.put("$type", r, z3.IntVal(self.class_id(cls)))
             for s2, _ in self.apply_contract(con, fi, [obj] + pos, kw, s, e):
                 out.append((s2, obj if s2.status == "run" else None))
         return out
